@@ -195,6 +195,18 @@ func (r *Run) Events() []Event {
 	return append([]Event(nil), r.events...)
 }
 
+// Has reports whether an event ev of starter p is in the log.
+func (r *Run) Has(ev string, p int) bool {
+	r.mu.Lock()
+	defer r.mu.Unlock()
+	for _, e := range r.events {
+		if e.Ev == ev && e.P == p {
+			return true
+		}
+	}
+	return false
+}
+
 // NEvents returns the length of the log.
 func (r *Run) NEvents() int { r.mu.Lock(); defer r.mu.Unlock(); return len(r.events) }
 
